@@ -881,3 +881,93 @@ func CallFamily() []*Program {
 	}
 	return out
 }
+
+// MapStringFamily enumerates chains of two operations on a map (nil, empty or with two
+// entries): write, overwrite, op-assignment of a missing key, delete of a present and of
+// a missing key, comma-ok on both, len, read of a missing key, aliasing through a second
+// variable -- and string operations (len, index, concatenation, substring, comparison,
+// range with index and value); keys and operands plain or with trace points.
+func MapStringFamily() []*Program {
+	const tag = "map-string-family"
+	var out []*Program
+	m, m2 := vr("m"), vr("m2")
+	type op struct {
+		name string
+		mk   func(st *sites, T func(N) N) []N
+	}
+	ops := []op{
+		{"m[1]=5", func(st *sites, T func(N) N) []N { return []N{set(idx("map", m, T(lit(1))), T(lit(5)))} }},
+		{"m[3]=7", func(st *sites, T func(N) N) []N { return []N{set(idx("map", m, T(lit(3))), T(lit(7)))} }},
+		{"m[3]+=2", func(st *sites, T func(N) N) []N { return []N{opset("add", idx("map", m, T(lit(3))), lit(2))} }},
+		{"m[1]++", func(st *sites, T func(N) N) []N { return []N{incdec(idx("map", m, lit(1)), 1)} }},
+		{"delete(m,1)", func(st *sites, T func(N) N) []N { return []N{del(m, T(lit(1)))} }},
+		{"delete(m,9)", func(st *sites, T func(N) N) []N { return []N{del(m, T(lit(9)))} }},
+		{"x,ok=m[1]", func(st *sites, T func(N) N) []N {
+			return []N{commaok(vr("x"), "ok", m, T(lit(1))), emit(st.next(), vr("x")), ifS(bvar("ok"), []N{emit(st.next(), lit(1))}, []N{emit(st.next(), lit(0))})}
+		}},
+		{"x,ok=m[9]", func(st *sites, T func(N) N) []N {
+			return []N{commaok(vr("x"), "ok", m, T(lit(9))), emit(st.next(), vr("x")), ifS(bvar("ok"), []N{emit(st.next(), lit(1))}, []N{emit(st.next(), lit(0))})}
+		}},
+		{"len,read", func(st *sites, T func(N) N) []N {
+			return []N{emit(st.next(), ln("map", m)), emit(st.next(), idx("map", m, T(lit(9)))), emit(st.next(), idx("map", m, lit(2)))}
+		}},
+		{"m2=m;m2[4]=8", func(st *sites, T func(N) N) []N { return []N{set(m2, m), set(idx("map", m2, lit(4)), T(lit(8)))} }},
+		{"m=make", func(st *sites, T func(N) N) []N { return []N{set(m2, m), set(m, mkmap())} }},
+		{"sum", func(st *sites, T func(N) N) []N {
+			return []N{rangeS("", "map", "k", "v", true, m, []N{addto("x", add(mul(vr("k"), lit(10)), vr("v"))), exprS(T(lit(0)))}), emit(st.next(), vr("x"))}
+		}},
+	}
+	bases := []struct {
+		name string
+		init []N
+	}{
+		{"nil", nil},
+		{"empty", []N{set(m, mkmap())}},
+		{"two", []N{set(m, maplit(lit(1), lit(10), lit(2), lit(20)))}},
+	}
+	for _, traced := range []bool{false, true} {
+		for _, b := range bases {
+			for i, o1 := range ops {
+				for j, o2 := range ops {
+					if b.name == "nil" && traced && (i+j)%2 == 1 {
+						continue // thin out
+					}
+					st := &sites{}
+					T := func(e N) N {
+						if traced {
+							return tr(st.next(), e)
+						}
+						return e
+					}
+					f := newFunc("f0").locals("map", "m", "m2").local("x", "int").local("ok", "bool")
+					body := append([]N{}, b.init...)
+					body = append(body, o1.mk(st, T)...)
+					body = append(body, o2.mk(st, T)...)
+					body = append(body, dump(st.next(), "map", m), dump(st.next(), "map", m2), ret(ln("map", m)))
+					out = append(out, prog(tag, fmt.Sprintf("map/%s; %s; %s/traced=%v", b.name, o1.name, o2.name, traced), nil, f.body(body...)))
+				}
+			}
+		}
+		// strings
+		st := &sites{}
+		T := func(e N) N {
+			if traced {
+				return tr(st.next(), e)
+			}
+			return e
+		}
+		f := newFunc("f0").locals("str", "s", "u").locals("int", "x", "i")
+		s, u := vr("s"), vr("u")
+		body := []N{set(s, strlit("abc")), set(u, concat(s, strlit("de"))), emit(st.next(), ln("str", u)), emit(st.next(), idx("str", u, T(lit(3)))),
+			set(s, concat(concat(s, s), strlit(""))), emit(st.next(), ln("str", s)), dump(st.next(), "str", slice("str", u, T(lit(1)), T(lit(3)), nil)),
+			dump(st.next(), "str", slice("str", u, nil, lit(2), nil)), dump(st.next(), "str", slice("str", u, lit(4), nil, nil)), dump(st.next(), "str", slice("str", u, lit(5), nil, nil)),
+			ifS(streq(slice("str", s, nil, lit(3), nil), slice("str", u, nil, T(lit(3)), nil)), []N{emit(st.next(), lit(1))}, []N{emit(st.next(), lit(0))}),
+			ifS(streq(s, u), []N{emit(st.next(), lit(1))}, []N{emit(st.next(), lit(0))}),
+			rangeS("", "str", "k", "c", true, u, []N{emit(st.next(), vr("k")), emit(st.next(), vr("c")), set(u, strlit("zz")), exprS(T(vr("k")))}),
+			rangeS("", "str", "k2", "", true, concat(u, strlit("!")), []N{addto("x", add(vr("k2"), lit(1)))}), emit(st.next(), vr("x")),
+			rangeS("", "str", "", "", true, strlit(""), []N{emit(st.next(), lit(99))}),
+			dump(st.next(), "str", u), emit(st.next(), idx("str", u, T(add(vr("i"), lit(7))))), ret(lit(0))}
+		out = append(out, prog(tag, fmt.Sprintf("strings/traced=%v", traced), nil, f.body(body...)))
+	}
+	return out
+}
